@@ -73,6 +73,10 @@ struct Cfg {
     ip: Option<(bool, usize)>,
     /// the block is opened with begin_block_no_label
     no_label: bool,
+    /// the instruction emitted directly in front of the measured call (in the same block): 1 = OpSelectionMerge, 2 = OpLoopMerge, 3 = OpLine, 4 = OpNoLine
+    pred: u8,
+    /// string arguments with multi-byte characters
+    wide: bool,
     /// a second, terminated block exists behind the one the call is made into (with reselect_terminated: the FIRST block is re-selected)
     two_blocks: bool,
 }
@@ -113,6 +117,7 @@ fn check_site(site: &CallSite, cfg: &Cfg) -> SiteResult {
         args.u32_base = 0xFFFF_F000;
     }
     args.ip_override = cfg.ip;
+    args.wide_strings = cfg.wide;
     args.lit64_pairs = cfg.narrow == Some(64);
     // ids are taken from the builder: a pool of 320 is reserved up front and the arguments are drawn from it
     args.word_base = 1;
@@ -125,7 +130,7 @@ fn check_site(site: &CallSite, cfg: &Cfg) -> SiteResult {
     let rep = json!({"kind": "builder-call", "method": site.name, "config": cfg_s, "cfg": {
         "explicit_id": cfg.explicit_id, "opt_upto": if cfg.opt_upto == usize::MAX { -1i64 } else { cfg.opt_upto as i64 }, "list_len": cfg.list_len,
         "choice_at": cfg.choice_at.map(|(a, b)| vec![a, b]), "in_block": cfg.in_block, "insert_begin": cfg.insert_begin,
-        "version_late": cfg.version_late, "prior_identical": cfg.prior_identical, "reselect_terminated": cfg.reselect_terminated, "narrow": cfg.narrow, "ip": cfg.ip.map(|(a, b)| json!([a, b])), "no_label": cfg.no_label, "two_blocks": cfg.two_blocks}});
+        "version_late": cfg.version_late, "prior_identical": cfg.prior_identical, "reselect_terminated": cfg.reselect_terminated, "narrow": cfg.narrow, "ip": cfg.ip.map(|(a, b)| json!([a, b])), "no_label": cfg.no_label, "two_blocks": cfg.two_blocks, "pred": cfg.pred, "wide": cfg.wide}});
     let mut out = SiteResult { viols: vec![], c16: vec![], outcome: "checked" };
     // a parameterised mask whose parameters cannot be expressed through this method's signature: the single
     // `additional_params` list comes after a LATER value parameter, so the grammar order is not reachable
@@ -194,6 +199,13 @@ fn check_site(site: &CallSite, cfg: &Cfg) -> SiteResult {
                     let uid = b.id();
                     b.undef(rty, Some(uid));
                 }
+            }
+            match cfg.pred {
+                1 => b.selection_merge(9001, spirv::SelectionControl::NONE).map_err(|e| ("setup".to_string(), format!("{:?}", e)))?,
+                2 => b.loop_merge(9001, 9002, spirv::LoopControl::NONE, vec![]).map_err(|e| ("setup".to_string(), format!("{:?}", e)))?,
+                3 => b.line(9003, 7, 8),
+                4 => b.no_line(),
+                _ => {}
             }
             if cfg.insert_begin {
                 // an instruction no measured call can emit identically (its result id is one no call receives)
@@ -377,7 +389,7 @@ fn check_site(site: &CallSite, cfg: &Cfg) -> SiteResult {
 }
 
 fn configs(site: &CallSite, tier: Tier) -> Vec<Cfg> {
-    let base = Cfg { explicit_id: false, opt_upto: usize::MAX, list_len: 2, choice_at: None, in_block: false, insert_begin: false, version_late: false, prior_identical: false, reselect_terminated: false, narrow: None, ip: None, no_label: false, two_blocks: false };
+    let base = Cfg { explicit_id: false, opt_upto: usize::MAX, list_len: 2, choice_at: None, in_block: false, insert_begin: false, version_late: false, prior_identical: false, reselect_terminated: false, narrow: None, ip: None, no_label: false, two_blocks: false, pred: 0, wide: false };
     let mut v = vec![base.clone(), Cfg { version_late: true, ..base.clone() }];
     let has_id = site.params.iter().any(is_result_id_param);
     let has_ip = site.params.iter().any(|p| p.ty == Ty::InsertPoint);
@@ -414,6 +426,14 @@ fn configs(site: &CallSite, tier: Tier) -> Vec<Cfg> {
         v.push(Cfg { no_label: true, ..base.clone() });
         v.push(Cfg { two_blocks: true, ..base.clone() });
         v.push(Cfg { two_blocks: true, reselect_terminated: true, ..base.clone() });
+    }
+    if needs_block(site) {
+        for pred in 1..=4 {
+            v.push(Cfg { pred, ..base.clone() });
+        }
+    }
+    if site.params.iter().any(|p| matches!(p.ty, Ty::Str | Ty::OptStr)) {
+        v.push(Cfg { wide: true, ..base.clone() });
     }
     if has_ip {
         for ip in [(true, 0), (true, 1), (true, 2), (false, 0), (false, 1), (false, 2)] {
@@ -457,6 +477,7 @@ enum HOp {
     Constant64,
     Variable,
     Line,
+    NoLine,
     BeginFunction,
     Parameter,
     BeginBlock,
@@ -467,9 +488,9 @@ enum HOp {
     SetVersion,
 }
 
-const HOPS: [HOp; 22] = [
+const HOPS: [HOp; 23] = [
     HOp::Capability, HOp::ExtInstImport, HOp::MemoryModel, HOp::EntryPoint, HOp::ExecutionMode, HOp::DebugString, HOp::Name, HOp::ModuleProcessed,
-    HOp::Decorate, HOp::TypeVoid, HOp::TypeInt64, HOp::Constant64, HOp::Variable, HOp::Line, HOp::BeginFunction, HOp::Parameter, HOp::BeginBlock,
+    HOp::Decorate, HOp::TypeVoid, HOp::TypeInt64, HOp::Constant64, HOp::Variable, HOp::Line, HOp::NoLine, HOp::BeginFunction, HOp::Parameter, HOp::BeginBlock,
     HOp::IAdd, HOp::Ret, HOp::Kill, HOp::EndFunction, HOp::SetVersion,
 ];
 
@@ -514,6 +535,7 @@ fn apply(b: &mut Builder, o: HOp, t64: &mut Option<u32>) -> bool {
             // types_global_values: the built module then has it there, and so must the loaded one
             b.line(3, 1, 2)
         }
+        HOp::NoLine => b.no_line(),
         HOp::SetVersion => {
             if b.version() == Some((1, 4)) {
                 return false; // idempotent: not a new state
@@ -652,7 +674,7 @@ fn c12_sweep(sites: &[&CallSite]) -> (u64, Vec<Viol>) {
         .par_iter()
         .map(|site| {
             let mut out = vec![];
-            for ctx in 0..4 {
+            for ctx in 0..8 {
                 // 0: nothing open; 1: function open, no block; 2: block open and then closed by a terminator;
                 // 3: block open (holding one instruction): the call succeeds, appends exactly one instruction to that
                 //    block, and closes the block iff the opcode is a block-termination instruction of the specification
@@ -674,9 +696,16 @@ fn c12_sweep(sites: &[&CallSite]) -> (u64, Vec<Viol>) {
                         b.nop().map_err(|e| format!("{:?}", e))?;
                         b.ret().map_err(|e| format!("{:?}", e))?;
                     }
-                    if ctx == 3 {
+                    if ctx >= 3 {
+                        // contexts 3..7: the block's last instruction is OpNop / OpSelectionMerge / OpLoopMerge / OpLine / OpNoLine
                         b.begin_block(None).map_err(|e| format!("{:?}", e))?;
-                        b.nop().map_err(|e| format!("{:?}", e))?;
+                        match ctx {
+                            3 => b.nop().map_err(|e| format!("{:?}", e))?,
+                            4 => b.selection_merge(9001, spirv::SelectionControl::NONE).map_err(|e| format!("{:?}", e))?,
+                            5 => b.loop_merge(9001, 9002, spirv::LoopControl::NONE, vec![]).map_err(|e| format!("{:?}", e))?,
+                            6 => b.line(9003, 7, 8),
+                            _ => b.no_line(),
+                        }
                     }
                     let before = snap(b.module_ref());
                     let sel = (b.selected_function(), b.selected_block());
@@ -685,7 +714,7 @@ fn c12_sweep(sites: &[&CallSite]) -> (u64, Vec<Viol>) {
                     let sel2 = (b.selected_function(), b.selected_block());
                     let failed = matches!(ret, Out::ResWord(Err(_)) | Out::ResUnit(Err(_)));
                     let fallible = matches!(ret, Out::ResWord(_) | Out::ResUnit(_));
-                    if ctx == 3 {
+                    if ctx >= 3 {
                         if !needs_block(site) {
                             if sel2 != sel {
                                 return Err(format!("a module-level method changed the selection from {:?} to {:?}", sel, sel2));
@@ -751,7 +780,7 @@ fn c12_sweep(sites: &[&CallSite]) -> (u64, Vec<Viol>) {
     for v in res {
         all.extend(v);
     }
-    (sites.len() as u64 * 4, all)
+    (sites.len() as u64 * 8, all)
 }
 
 fn main() {
@@ -783,6 +812,8 @@ fn main() {
                     ip: c["ip"].as_array().and_then(|a| Some((a.first()?.as_bool()?, a.get(1)?.as_u64()? as usize))),
                     no_label: c["no_label"].as_bool().unwrap_or(false),
                     two_blocks: c["two_blocks"].as_bool().unwrap_or(false),
+                    pred: c["pred"].as_u64().unwrap_or(0) as u8,
+                    wide: c["wide"].as_bool().unwrap_or(false),
                 };
                 let res = check_site(site, &cfg);
                 Some(res.viols.iter().chain(res.c16.iter()).map(|v| v.what.clone()).collect())
